@@ -25,6 +25,8 @@ def _expand(plans, tier):
     late = 0
     for i, p in enumerate(plans):
         out.append(p)
+        if tier == "quick" and str(p.get("src", "")).startswith("t2sub"):
+            continue    # quick: the barrier plans are replayed on the plain catalog only
         if _late_relevant(p) and i % 3 != 1 and late < (60 if tier == "quick" else 4000):
             late += 1
             out.append(dict(p, plan=str(p["plan"]) + "-ldb", params=dict(p.get("params") or {}, **LATE_DB)))
@@ -58,6 +60,13 @@ C = dict(
         dict(name="s2", module="CatalogWatch", cfg="CatalogWatch_Plan2sw2.cfg", workers=4, cap={"quick": 30}, tiers=["quick"], params=TWO_DB),
         dict(name="s2w3", module="CatalogWatch", cfg="CatalogWatch_Plan2s.cfg", workers=4, cap={"thorough": 1000}, tiers=["thorough"],
              params=TWO_DB),
+        # delivery barriers ("d sync") and the subscribe step ordered against writes while an earlier task's watch is delivering
+        # (t2sub is small and replayed completely in both tiers)
+        dict(name="t2sub", module="CatalogWatch", cfg="CatalogWatch_Plan2tSub.cfg", workers=4),
+        dict(name="t2sub2", module="CatalogWatch", cfg="CatalogWatch_Plan2tSub2.cfg", workers=4, cap={"thorough": 800}, tiers=["thorough"]),
+        dict(name="t2subany", module="CatalogWatch", cfg="CatalogWatch_Plan2tSubAny.cfg", workers=4, cap={"thorough": 800}, tiers=["thorough"]),
+        dict(name="sim2ts", module="CatalogWatch", cfg="CatalogWatch_PlanSim2tSub.cfg", simulate={"thorough": 500}, depth=20,
+             cap={"thorough": 300}, tiers=["thorough"]),
         dict(name="sim", module="CatalogWatch", cfg="CatalogWatch_PlanSim.cfg", simulate={"quick": 40, "thorough": 1500},
              depth=14, cap={"quick": 30, "thorough": 1200}),
         dict(name="sim2t", module="CatalogWatch", cfg="CatalogWatch_PlanSim2t.cfg", simulate={"quick": 30, "thorough": 500},
@@ -73,15 +82,19 @@ C = dict(
     driver_timeout=2400,
     nontrivial=_calls,
     rule="one plan = an initial source catalog, the tasks' selections and a sequence of catalog writes interleaved with the "
-         "last task's reader steps (openc, openp, list, plist, startw), enumerated by TLC from CatalogWatch.tla (exhaustive "
+         "last task's reader steps (sub, openc, openp, list, plist, startw) and, in the t2sub* sources, with delivery barriers "
+         "of the already running watches (sync), enumerated by TLC from CatalogWatch.tla (exhaustive "
          "enumerations are sampled with VERIF_SEED, deep ones come from tlc -simulate); a trace is non-trivial if the channel "
          "manager received at least one StartReadCollection / AddPartition; distinct = distinct event sequences",
     assumptions=[
         "source catalog = embedded etcd v3.5.5 filled by harness/catalog in the source's formats; a multi-key source transaction "
         "(create with fields and default partition, garbage collection) is written as consecutive puts",
         "the channel manager is a recording fake: duplicates are accepted, idempotence of the real manager is not checked here",
-        "interleavings are forced at the reader's catalog accesses by an api.MetaOp decorator; the order inside etcd's watch "
-        "registration (client Watch() returns before the server has registered the watcher) is not controlled",
+        "interleavings are forced at the reader's catalog accesses and consumer registrations by an api.MetaOp decorator; the order "
+        "inside etcd's watch registration (client Watch() returns before the server has registered the watcher) is not controlled",
+        "watch delivery is ordered against the reader's steps only in the t2sub* plans (barrier: sentinel objects written at the "
+        "barrier reached the recorder and every object the plan created was started / added or offered to all consumers "
+        "registered at that moment; bounded wait of 2 s, then the replay goes on); elsewhere it is asynchronous",
         "a call counts as missed only after: sentinel objects written after the plan's last write were delivered through both "
         "watch goroutines, then 8 s of waiting, then fresh sentinels and 4 more seconds",
         "one non-default partition name per collection incarnation; databases are never dropped in C13 plans (variant -ldb: a database is created right before its first collection); "
@@ -91,4 +104,12 @@ C = dict(
 
 
 def run(tier, replay=None):
+    if not replay:
+        from lib import vlib
+        # negative control of the subscribe step: a task that registers its consumers after its listings, while another
+        # task's watch is delivering, must leave the contract
+        r = vlib.run_tlc("CatalogWatch", "CatalogWatch_LateSub2.cfg", workers=4, timeout=300)
+        if "Contract" not in r.violated:
+            raise vlib.Inconclusive("CatalogWatch_LateSub2.cfg no longer violates the contract: the subscribe step of the model is vacuous")
+        vlib.log("[tlc] CatalogWatch/CatalogWatch_LateSub2.cfg: violates the contract as expected")
     return flow.standard_flow(C, tier, replay)
